@@ -165,10 +165,10 @@ def prior(check, prog):
             comp = v[2][0]
             itr = comp[3][0][1]
             e = comp[3][0][0]
-            ok = itr == ('call', 'zip', (('attr', sym('self'), '_parameters'),
-                                         sym('pars')), ()) and \
-                comp[2] == ('call', ('attr', ('idx', e, num(0)), 'lnprob'),
-                            (('idx', e, num(1)),), ())
+            P = intern(('attr', sym('self'), '_parameters'))
+            ep, ev = intern(('elem', P, e[2])), intern(('elem', sym('pars'), e[2]))
+            ok = itr == ('call', 'zip', (P, sym('pars')), ()) and \
+                comp[2] == ('call', ('attr', ep, 'lnprob'), (ev,), ())
     check.require(ok, 'P3-sum-of-log-densities', 'Model._lnprior',
                   'log-prior = sum of p.lnprob(v) over zip(_parameters, pars)', loc,
                   fail_detail='returns %s' % (show(fin[0].value)[:200] if fin else None))
